@@ -320,9 +320,10 @@ def r7(repo, run):
         fl = [i for i, e in enumerate(p.events) if e.kind == 'call' and e.callee == 'self.builder.flatten']
         if not uses:
             raise AnalysisError('StreamNode.on_premerge_impl: stages[0] not used')
-        apps = [e for e in p.events if e.kind == 'call' and e.attr == 'append' and e.recv is not None and e.recv.text == 'self']
-        if apps and (not apps[-1].args or apps[-1].args[0].text != 'self.builder.stages[0]'):
-            verdict = ('bad', 'the carrier is refilled with %s, not with the flattened document (stages[0])' % (apps[-1].args[0].text[:50] if apps[-1].args else 'nothing'))
+        apps = [e.args[0].text if e.args else None for e in p.events if e.kind == 'call' and e.attr == 'append' and e.recv is not None and e.recv.text == 'self']
+        apps += [e.args[1].text for e in p.events if e.kind == 'enter' and (e.callee or '').endswith('.append') and len(e.args) == 2 and e.args[0].text == 'self']
+        if apps and apps[-1] != 'self.builder.stages[0]':
+            verdict = ('bad', 'the carrier is refilled with %s, not with the flattened document (stages[0])' % (apps[-1] or 'nothing')[:50])
         elif not fl or fl[0] > uses[0]:
             verdict = ('bad', 'stages[0] is used before the included documents were flattened (only the first included document would be merged)')
         elif p.ret is None or p.ret.text != 'self.builder.stages[0].ayns.on_premerge(%s, %s)' % (fi.params()[1], fi.params()[2]):
@@ -471,5 +472,6 @@ def mutants(repo):
         Mutant('parse-cache-shares-nodes', lambda r: in_func(r, 'Builder.add_source',
                "                    for node in yaml.parse(source, self):\n                        if node is not None:\n                            self.stages.append(node)",
                "                    key = (self._current_file, bool(safe))\n                    docs = _PARSED.get(key)\n                    if docs is None:\n                        docs = _PARSED.setdefault(key, [n for n in yaml.parse(source, self) if n is not None])\n                    self.stages.extend(docs)"), ['C06.R8']),
+        Mutant('stream-carrier-refilled-with-second-stage', lambda r: in_func(r, 'StreamNode.ayns.on_premerge_impl', "self.append(self.builder.stages[0])", "self.append(self.builder.stages[1])"), ['C06.R7']),
         Mutant('neutral-include-rename-var', lambda r: merge_two(r), neutral=True),
     ]
